@@ -255,6 +255,10 @@ func c20Match(line string, alts [][]string) bool {
 
 func genC20Format(r *rand.Rand, unixSafe bool) []string {
 	var toks []string
+	if r.Intn(20) == 0 {
+		// a single field and nothing else: the line may turn out empty, it is a line all the same
+		return []string{choose(r, []string{"$header.Missing", "$header.Referer", "$request_args", "$upstream_service", "$header.User-Agent", "$upstream_port", "$remote_port"})}
+	}
 	n := 1 + r.Intn(8)
 	toks = append(toks, choose(r, c20Literals))
 	for i := 0; i < n; i++ {
